@@ -131,7 +131,7 @@ func TestVerifC11(t *testing.T) {
 		commitsSeen := false
 		var states []c11State
 		var outs []*outcome
-		var finalBad []string
+		var finalBad, finalScans []string
 		var finalDump string
 		// serial outcomes: every merge of the writers' operation lists that preserves program order
 		serial := map[string]bool{}
@@ -184,6 +184,7 @@ func TestVerifC11(t *testing.T) {
 			states = states[:0]
 			outs = outs[:0]
 			thr, tol := 0.75, 0.5
+			finalScans = nil
 			record := func(db *pebble.DB) {
 				kvs, h := c11Dump(db)
 				states = append(states, c11State{hash: h, kvs: kvs, thr: thr, tol: tol})
@@ -226,6 +227,9 @@ func TestVerifC11(t *testing.T) {
 			vpebble.OnCommit = nil
 			vrt.Atomic(func() {
 				finalBad = indexConsistency(s)
+				if len(finalBad) == 0 {
+					finalScans = c11FinalScans(s, sp, thr, tol)
+				}
 				finalDump = strings.Join(dumpPhysical(s, false), "\n")
 				s.Close()
 				mem.RemoveAll(dir)
@@ -244,6 +248,11 @@ func TestVerifC11(t *testing.T) {
 			} else if len(sc.writers) > 0 && !serial[finalDump] {
 				r.Violate("final-state/"+name+"/not-serializable/"+vh.Hash(finalDump),
 					fmt.Sprintf("scenario [%s]: the final store content equals no serial order of the writers' operations:\n%s", name, finalDump),
+					map[string]interface{}{"scenario": si, "choices": choices})
+			}
+			if len(finalScans) > 0 {
+				r.Violate("final-state/"+name+"/scans-disagree/"+vh.Hash(strings.Join(finalScans, ";")),
+					fmt.Sprintf("scenario [%s]: after all threads finished, scans of the (single, committed) final state disagree with brute force over the records it holds: %s", name, strings.Join(finalScans, "; ")),
 					map[string]interface{}{"scenario": si, "choices": choices})
 			}
 			distinct["final:"+vh.Hash(finalDump)] = true
